@@ -1,0 +1,362 @@
+//go:build verif
+
+package db
+
+// Contracts for property C09 (external writes are imported exactly once; the gateway's own writes never are).
+// Comment-only; read by /verif/engine. Vocabulary (hexCas, crcStr, errIs) in /verif/trusted/c09_import.spec.
+
+//@ props C09
+
+// ---- the stored own-write evidence ----
+
+// _sync.cas as a number: what the gateway's writes macro-expand to the document CAS.
+//@ pred syncCas(s *SyncData) uint64
+//@   is ite(s.Cas == "", 0, hexCas(s.Cas))
+
+//@ func SyncData.GetSyncCas
+//@   safety on
+//@   requires s != nil
+//@   ensures[spec] result == syncCas(s)
+
+// the hash stored for a user xattr value: "" for none
+//@ pred uxHash(x []byte) string
+//@   is ite(len(x) == 0, "", crcStr(x))
+
+//@ func userXattrCrc32cHash
+//@   safety on
+//@   ensures[spec] result == uxHash(userXattr)
+
+// the user xattr differs from the one whose hash is recorded in _sync
+//@ pred uxChanged(x []byte, prev string) bool
+//@   is (prev == "" && len(x) > 0) || uxHash(x) != prev
+
+//@ func HasUserXattrChanged
+//@   safety on
+//@   ensures[spec] result <==> uxChanged(userXattr, prevUserXattrHash)
+
+// the version (src, val) is the current version recorded in _sync.rev
+//@ pred cvEq(s *SyncData, src string, val uint64) bool
+//@   is src == s.RevAndVersion.CurrentSource && val == hexCas(s.RevAndVersion.CurrentVersion)
+
+//@ func SyncData.CVEqual
+//@   safety on
+//@   requires s != nil
+//@   ensures[spec] result <==> cvEq(s, cv.SourceID, cv.Value)
+
+// ---- the current version of the document's version vector (_vv), as seen through cvExtractor ----
+
+// The interface cvExtractor has exactly two implementations in the repository: *HybridLogicalVector and *rawHLV
+// (hybrid_logical_vector.go: `var _ cvExtractor = &rawHLV{}`, `var _ cvExtractor = &HybridLogicalVector{}`; no
+// other type has a method ExtractCV). The three predicates below restate what the two bodies do:
+//   (*HybridLogicalVector).ExtractCV: nil receiver -> ErrNotFound, else (hlv.SourceID, hlv.Version)
+//                                     (ExtractCurrentVersionFromHLV = CreateVersion(GetCurrentVersion()));
+//   (*rawHLV).ExtractCV:              nil receiver -> ErrNotFound, else a JSON decode of the raw _vv bytes, which
+//                                     either fails or yields (src, HexCasToUint64(ver)): uninterpreted functions
+//                                     rawCvState / rawCvSrc / rawCvVal of the pointer. ASSUMPTION: the raw _vv
+//                                     bytes are not mutated while the own-write check runs.
+// cvState: 0 = a current version was extracted, 1 = ErrNotFound (no _vv), 2 = any other error.
+//@ fn rawCvState(r *rawHLV) int
+//@ fn rawCvSrc(r *rawHLV) string
+//@ fn rawCvVal(r *rawHLV) uint64
+//@ pred cvState(cv cvExtractor) int
+//@   is ite(dynType(cv) == typeTag(*HybridLogicalVector), ite(unbox(cv, *HybridLogicalVector) == nil, 1, 0),
+//@          ite(unbox(cv, *rawHLV) == nil, 1, rawCvState(unbox(cv, *rawHLV))))
+//@ pred cvSrc(cv cvExtractor) string
+//@   is ite(dynType(cv) == typeTag(*HybridLogicalVector), unbox(cv, *HybridLogicalVector).SourceID, rawCvSrc(unbox(cv, *rawHLV)))
+//@ pred cvVal(cv cvExtractor) uint64
+//@   is ite(dynType(cv) == typeTag(*HybridLogicalVector), unbox(cv, *HybridLogicalVector).Version, rawCvVal(unbox(cv, *rawHLV)))
+
+// TRUSTED dispatch contract of the interface method (see above for why it is true of both implementations).
+// `recv` must be one of the two known implementations (proved at every call site).
+//@ extern func github.com/couchbase/sync_gateway/db.cvExtractor.ExtractCV
+//@   inert
+//@   requires[known-impl] dynType(recv) == typeTag(*HybridLogicalVector) || dynType(recv) == typeTag(*rawHLV)
+//@   ensures isNilErr(result1) <==> cvState(recv) == 0
+//@   ensures errIs(result1, box(base.ErrNotFound)) <==> cvState(recv) == 1
+//@   ensures isNilErr(result1) ==> result0 != nil && result0.SourceID == cvSrc(recv) && result0.Value == cvVal(recv)
+
+// ---- the own-write predicate ----
+
+// _sync records a current version
+//@ pred cvRecorded(s *SyncData) bool
+//@   is s.RevAndVersion.CurrentVersion != "" || s.RevAndVersion.CurrentSource != ""
+
+// "matching (or absent) current version": nothing recorded in _sync, or the document has no _vv, or they agree
+//@ pred cvConsistent(s *SyncData, cv cvExtractor) bool
+//@   is !cvRecorded(s) || cvState(cv) == 1 || (cvState(cv) == 0 && cvEq(s, cvSrc(cv), cvVal(cv)))
+
+// a metadata-only rewrite by the gateway: body checksum, user-xattr hash and current version all as recorded
+//@ pred metaMatch(s *SyncData, bodyCrc string, ux []byte, cv cvExtractor) bool
+//@   is bodyCrc == s.Crc32c && !uxChanged(ux, s.Crc32cUserXattr) && cvConsistent(s, cv)
+
+// the document (cas, body checksum, user xattr, _vv) is the gateway's own write w.r.t. the metadata s
+//@ pred ownWrite(s *SyncData, cas uint64, bodyCrc string, ux []byte, cv cvExtractor) bool
+//@   is cas == syncCas(s) || metaMatch(s, bodyCrc, ux, cv)
+
+//@ func SyncData.IsSGWrite
+//@   safety on
+//@   requires s != nil
+//@   requires[known-impl] dynType(cv) == typeTag(*HybridLogicalVector) || dynType(cv) == typeTag(*rawHLV)
+//@   ensures[cas-shortcut]  cas == syncCas(s) ==> isSGWrite                                       // never mistaken for external
+//@   ensures[meta-only]     metaMatch(s, crcStr(rawBody), rawUserXattr, cv) ==> isSGWrite         // metadata-only rewrites
+//@   ensures[never-hides]   isSGWrite ==> cas == syncCas(s) || (crcStr(rawBody) == s.Crc32c && !uxChanged(rawUserXattr, s.Crc32cUserXattr) && cvConsistent(s, cv))
+//@   ensures[own-write]     isSGWrite <==> ownWrite(s, cas, crcStr(rawBody), rawUserXattr, cv)
+//@   ensures[body-changed]  bodyChanged <==> cas != syncCas(s) && crcStr(rawBody) != s.Crc32c
+//@   ensures[crc-match]     crc32Match <==> cas != syncCas(s) && isSGWrite
+
+// ---- the body-less variant (used where only xattrs are available) ----
+
+// documented case 6: cas mismatch on a live document whose user xattr and current version both match -- only the
+// body checksum (not available here) could tell an SDK body change from a metadata-only rewrite
+//@ pred xoAmbiguous(s *SyncData, cas uint64, isDelete bool, ux []byte, cv cvExtractor) bool
+//@   is cas != syncCas(s) && !isDelete && !uxChanged(ux, s.Crc32cUserXattr) && cvConsistent(s, cv)
+// definite own write: cas shortcut, or a tombstone with the gateway's tombstone checksum and matching xattr + cv
+//@ pred xoOwnWrite(s *SyncData, cas uint64, isDelete bool, ux []byte, cv cvExtractor) bool
+//@   is cas == syncCas(s) || (isDelete && s.Crc32c == base.DeleteCrc32c && !uxChanged(ux, s.Crc32cUserXattr) && cvConsistent(s, cv))
+
+//@ func SyncData.IsSGWriteXattrOnly
+//@   safety on
+//@   requires s != nil
+//@   requires[known-impl] dynType(cv) == typeTag(*HybridLogicalVector) || dynType(cv) == typeTag(*rawHLV)
+//@   ensures[cas-shortcut] cas == syncCas(s) ==> isSGWrite && !ambiguous
+//@   ensures[not-both]     !(isSGWrite && ambiguous)
+//@   ensures[ambiguous]    ambiguous <==> xoAmbiguous(s, cas, isDelete, rawUserXattr, cv)
+//@   ensures[own-write]    isSGWrite <==> xoOwnWrite(s, cas, isDelete, rawUserXattr, cv)
+
+// Agreement of the two implementations, as a lemma over the two contracts: wherever the xattr-only variant is
+// definite, its verdict is the verdict IsSGWrite gives for ANY body (checksum bodyCrc) -- where the body of a
+// tombstone is the empty body, whose checksum is DeleteCrc32c. And where it is ambiguous, IsSGWrite's verdict is
+// exactly the body checksum comparison.
+//@ lemma xattrOnly_agrees_with_IsSGWrite(s *SyncData, cas uint64, isDelete bool, ux []byte, cv cvExtractor, bodyCrc string)
+//@   requires isDelete ==> bodyCrc == base.DeleteCrc32c
+//@   ensures[agree]     !xoAmbiguous(s, cas, isDelete, ux, cv) ==> (xoOwnWrite(s, cas, isDelete, ux, cv) <==> ownWrite(s, cas, bodyCrc, ux, cv))
+//@   ensures[ambiguous] xoAmbiguous(s, cas, isDelete, ux, cv) ==> (ownWrite(s, cas, bodyCrc, ux, cv) <==> bodyCrc == s.Crc32c)
+//@   ensures[exclusive] !(xoAmbiguous(s, cas, isDelete, ux, cv) && xoOwnWrite(s, cas, isDelete, ux, cv))
+
+// The trusted link to the storage layer, as a lemma over the predicates: every write of the gateway
+// macro-expands _sync.cas to the cas of that very mutation (updateAndReturnDoc: opts.MacroExpansion =
+// macroExpandSpec(base.SyncXattrName)). A stored document for which that holds is an own write for both variants,
+// definitely so for the xattr-only one, whatever the body, the user xattr and the version vector are: after a
+// committed import neither a repeated read nor the redelivered feed event imports again.
+//@ lemma committed_write_is_own_write(s *SyncData, cas uint64, isDelete bool, ux []byte, cv cvExtractor, bodyCrc string)
+//@   requires syncCas(s) == cas
+//@   ensures[own-write]      ownWrite(s, cas, bodyCrc, ux, cv)
+//@   ensures[own-write-xo]   xoOwnWrite(s, cas, isDelete, ux, cv) && !xoAmbiguous(s, cas, isDelete, ux, cv)
+
+// ---- the document-level check used by both import paths ----
+
+// Document.BodyBytes: whatever it returns without error is (afterwards) the cached raw body doc._rawBody --
+// the raw body it already had, or the fresh JSON encoding of doc._body, or nil when the document has no body
+// at all. On an encoding error nothing is cached. (base.JSONMarshal and pkgerrors.Wrapf: trusted frames below.)
+//@ func Document.BodyBytes
+//@   safety on
+//@   requires doc != nil
+//@   modifies doc._rawBody
+//@   ensures[cached] isNilErr(result1) ==> result0 == doc._rawBody
+//@   ensures[kept]   old(doc._rawBody) != nil ==> isNilErr(result1) && doc._rawBody == old(doc._rawBody)
+//@   ensures[none]   old(doc._rawBody) == nil && doc._body == nil ==> isNilErr(result1) && doc._rawBody == nil
+//@   ensures[failed] !isNilErr(result1) ==> doc._rawBody == nil && doc._body != nil
+//@   ensures[some]   isNilErr(result1) && doc._body != nil ==> doc._rawBody != nil
+
+// (base.JSONMarshal: trusted contract in base/zz_verif_c19.go, props C19 C09 -- reads its argument, allocates the
+// result, and a successful encoding is never a nil slice.)
+// TRUSTED: pkg/errors.Wrapf returns nil exactly for a nil error (`if err == nil { return nil }`, otherwise a
+// pointer to a fresh withStack); no heap effect besides the allocation.
+//@ extern func github.com/pkg/errors.Wrapf
+//@   inert
+//@   ensures isNilErr(result) <==> isNilErr(err)
+
+// the own-write predicate on a document, for a body checksum crc
+//@ pred docOwnWrite(doc *Document, crc string) bool
+//@   is ownWrite(doc.SyncData, doc.Cas, crc, doc.rawUserXattr, box(doc.HLV))
+
+// The checksum the check compares with the recorded one: of the raw body when the caller has it; otherwise
+// (docBodyCrc) of the document's own body bytes -- which BodyBytes leaves cached in doc._rawBody, so the clauses
+// read it there in the post-state -- or the tombstone checksum for a deleted document. `doc._rawBody == nil &&
+// doc._body != nil` afterwards means the body could not be encoded: then the verdict is "not an own write"
+// unless the cas shortcut applies.
+//@ pred docBodyCrc(doc *Document) string
+//@   is ite(doc.Deleted, base.DeleteCrc32c, crcStr(doc._rawBody))
+//@ func Document.IsSGWrite
+//@   safety on
+//@   requires doc != nil
+//@   modifies doc._rawBody
+//@   ensures[cas-shortcut]   doc.Cas == syncCas(doc.SyncData) ==> isSGWrite && !bodyChanged                    // never mistaken for external
+//@   ensures[never-hides]    isSGWrite ==> doc.Cas == syncCas(doc.SyncData) || (!uxChanged(doc.rawUserXattr, doc.SyncData.Crc32cUserXattr) && cvConsistent(doc.SyncData, box(doc.HLV)))
+//@   ensures[own-write-raw]  len(rawBody) > 0 ==> (isSGWrite <==> docOwnWrite(doc, crcStr(rawBody)))
+//@   ensures[changed-raw]    len(rawBody) > 0 ==> (bodyChanged <==> doc.Cas != syncCas(doc.SyncData) && crcStr(rawBody) != doc.SyncData.Crc32c)
+//@   ensures[own-write-doc-sound] len(rawBody) == 0 && isSGWrite ==> docOwnWrite(doc, docBodyCrc(doc))
+//@   ensures[own-write-doc]  len(rawBody) == 0 && (doc._rawBody != nil || doc._body == nil) ==> (isSGWrite <==> docOwnWrite(doc, docBodyCrc(doc)))
+//@   ensures[changed-doc]    len(rawBody) == 0 && (doc._rawBody != nil || doc._body == nil) ==> (bodyChanged <==> doc.Cas != syncCas(doc.SyncData) && docBodyCrc(doc) != doc.SyncData.Crc32c)
+//@   ensures[no-body-error]  len(rawBody) == 0 && doc._rawBody == nil && doc._body != nil && doc.Cas != syncCas(doc.SyncData) ==> !isSGWrite && !bodyChanged
+
+// ---- metadata-only update marker (_mou) written with an import ----
+
+// The _mou written by an import names itself by the macro-expanded cas of the import write (HexCAS is the
+// expansion placeholder, so after the write _mou.cas == document cas == _sync.cas: the gateway's own
+// metadata-only rewrite is recognisable) and keeps the cas of the last non-metadata mutation: the previous
+// cas of an unbroken chain of metadata-only updates is carried over, otherwise it is the current cas.
+//@ pred mouChained(currentCas uint64, currentMou *MetadataOnlyUpdate) bool
+//@   is currentMou != nil && casStr(currentCas) == currentMou.HexCAS
+//@ func computeMetadataOnlyUpdate
+//@   safety on
+//@   ensures[fresh]     result != nil && !old(allocated(now(result)))
+//@   ensures[self]      result.HexCAS == expandMacroCASValueString
+//@   ensures[prev-cas]  result.PreviousHexCAS == ite(mouChained(currentCas, currentMou), currentMou.PreviousHexCAS, casStr(currentCas))
+//@   ensures[prev-rev]  result.PreviousRevSeqNo == revNo
+//@   ensures[external-cas] !mouChained(currentCas, currentMou) ==> hexCas(result.PreviousHexCAS) == currentCas
+
+// ---- helpers called by the import callback: thin frame contracts ----
+
+//@ func Document.RemoveBody
+//@   safety on
+//@   requires doc != nil
+//@   modifies doc._body, doc._rawBody
+//@   ensures[cleared] doc._body == nil && doc._rawBody == nil
+
+//@ func Document.UpdateBody
+//@   safety on
+//@   requires doc != nil
+//@   modifies doc._body, doc._rawBody
+//@   ensures[set] doc._body == body && doc._rawBody == nil
+
+//@ func Document.SetAttachments
+//@   safety on
+//@   requires d != nil
+//@   modifies d._globalSync.Attachments
+//@   ensures[set] d._globalSync.Attachments == attachments
+
+// Document.Body is TRUSTED (thin frame contract): returns the cached body map or unmarshals doc._rawBody into
+// doc._body (Body.Unmarshal writes through &doc._body and fills a fresh map). Nothing else is written.
+//@ func Document.Body
+//@   trusted
+//@   modifies doc._body
+
+// Document.MarshalBodyAndSync is TRUSTED (thin frame contract): JSON encoding (base.InjectJSONProperties /
+// base.JSONMarshal -> Document.MarshalJSON) only reads the document and allocates the result.
+//@ func Document.MarshalBodyAndSync
+//@   trusted
+
+// TRUSTED frame: reading a document's expiry from the bucket has no effect on gateway memory.
+//@ extern func github.com/couchbase/sg-bucket.KVStore.GetExpiry
+//@   inert
+
+// TRUSTED frame: the canonical JSON encoder only reads its argument and allocates the result.
+//@ extern func github.com/couchbase/sync_gateway/base.JSONMarshalCanonical
+//@   inert
+
+// ImportFilterFunction.EvaluateFunction is TRUSTED (thin frame contract): runs the user's JavaScript import
+// filter on (a JSON conversion of) the body it is given; it writes JS-runtime state only -- no Document,
+// RevTree or local variable of importDoc. Nothing is assumed about its verdict.
+//@ func ImportFilterFunction.EvaluateFunction
+//@   trusted
+
+// (Body.ShallowCopy and StripInternalProperties: verified contracts in zz_verif_c19.go, tagged C19 C09 -- both
+// write only to a map they allocate.)
+
+// backupPreImportRevision is TRUSTED (thin frame contract): it peeks the revision cache and writes a backup
+// document to the bucket (setOldRevisionJSON); it touches no Document, RevTree or local variable of importDoc.
+//@ func DatabaseCollectionWithUser.backupPreImportRevision
+//@   trusted
+
+// CreateRevIDWithBytes is TRUSTED: fmt.Sprintf("%d-%x", generation, md5 digest). What is assumed: for a
+// generation >= 1 the result is a well-formed revision id (revOK: decimal generation, "-", hex digest) whose
+// generation parses back to `generation` (strconv.Atoi inverts %d; the first "-" is the separator because a
+// positive decimal contains none); it is never "". No heap effect besides private buffers.
+//@ func CreateRevIDWithBytes
+//@   trusted
+//@   ensures[nonempty]   result != ""
+//@   ensures[generation] generation >= 1 ==> revOK(result) && revGenOf(result) == generation
+
+//@ func DatabaseCollection.UserXattrKey
+//@   pure
+
+// ---- the import callback (importDoc's closure, run inside the CAS retry loop of updateAndReturnDoc) ----
+
+// Preconditions = what updateAndReturnDoc hands to the callback: a non-nil document whose revision tree is an
+// allocated, well-formed map (every constructor of Document/SyncData does History: make(RevTree); treeWF is
+// RevTree's representation invariant, C04).
+//@ func DatabaseCollectionWithUser.importDoc$1
+//@   requires doc != nil && existingDoc != nil && doc.History != nil && treeWF(doc.History)
+//@   requires[new-doc] newDoc != nil && newDoc != doc
+//@   requires[same-doc] doc.Cas == existingDoc.Cas ==> existingDoc.Xattrs[db.DatabaseCollection.UserXattrKey()] == doc.rawUserXattr
+//@   modifies *
+//@   ensures[stale-feed-event]  old(doc.Cas != existingDoc.Cas && mode == ImportFromFeed) ==> resultErr == box(base.ErrImportCasFailure) && resultDocument == nil
+//@   ensures[own-write-checked] isNilErr(resultErr) ==> called(IsSGWrite, 1) && !callres(IsSGWrite, 1, 0)
+//@   ensures[own-write-cancels] called(IsSGWrite, 1) && callres(IsSGWrite, 1, 0) ==> resultErr == box(base.ErrAlreadyImported) && resultDocument == nil
+//@   ensures[body-change-new-rev] isNilErr(resultErr) && callres(IsSGWrite, 1, 2) ==> !createNewRevIDSkipped && called(addRevision, 1)
+//@   ensures[new-rev]           isNilErr(resultErr) && !createNewRevIDSkipped ==> called(addRevision, 1) && resultDocument == newDoc && resultDocument.RevID == callres(CreateRevIDWithBytes, 1, 0)
+//@   ensures[no-new-rev]        isNilErr(resultErr) && createNewRevIDSkipped ==> !called(addRevision, 1) && resultDocument == newDoc && resultDocument.RevID == doc.SyncData.GetRevTreeID()
+// [xattr-only-no-rev]: a mutation that changed only the user xattr (body checksum as recorded, user xattr present)
+// is imported without a new revision. CANDIDATE FINDING F10 (kept as a failing clause): it holds on the first
+// invocation ([xattr-only-no-rev-first-attempt], proved) but not on the retry of an ON-DEMAND import after a CAS
+// failure: there existingDoc is replaced by &BucketDocument{Cas: doc.Cas} -- no Xattrs -- so
+// `len(existingDoc.Xattrs[userXattrKey]) == 0` makes shouldGenerateNewRev true and a generation+1 revision with
+// the unchanged body is added (the engine proves `!createNewRevIDSkipped` on every error-free return of that
+// path). Reproduced on the real code: /verif/findings/F10_ondemand_import_retry_user_xattr_test.go (SDK body
+// write imported as 1-..; user xattr "A" imported on demand: still 1-..; user xattr "B", and "C" injected while
+// the on-demand import of "B" is writing: the retry stores 2-.. with the same body).
+//@   ensures[xattr-only-no-rev-first-attempt] old(doc.Cas == existingDoc.Cas) && isNilErr(resultErr) && !callres(IsSGWrite, 1, 2) && len(doc.rawUserXattr) > 0 ==> createNewRevIDSkipped
+//@   ensures[xattr-only-no-rev] isNilErr(resultErr) && !callres(IsSGWrite, 1, 2) && len(doc.rawUserXattr) > 0 ==> createNewRevIDSkipped
+//@   ensures[mou]               isNilErr(resultErr) ==> resultDocument.MetadataOnlyUpdate != nil && resultDocument.MetadataOnlyUpdate.HexCAS == expandMacroCASValueString
+//@   before[this-doc] call IsSGWrite#1 $0 == doc && $2 == existingDoc.Body
+//@   before[tree]       call addRevision#1 $0 == doc.History
+//@   before[new-id]     call addRevision#1 $3.ID == callres(CreateRevIDWithBytes, 1, 0) && $3.Deleted == isDelete
+//@   before[parent]     call addRevision#1 $3.Parent == doc.SyncData.GetRevTreeID()
+//@   before[generation] call addRevision#1 pGen($3.Parent) >= 0 ==> revOK($3.ID) && revGenOf($3.ID) == pGen($3.Parent) + 1
+
+// ---- the read path: on-demand import only for external writes (path contract) ----
+
+// getDocWithXattrs is TRUSTED (thin contract): every error-free return hands back the *Document produced by
+// unmarshalDocumentWithXattrs -- NewDocument(docid) filled in, never nil on success -- stamped with the cas of
+// the bucket document it returns alongside. It reads the bucket; `modifies *` because the unmarshalling and
+// the datastore are opaque here.
+//@ func DatabaseCollection.getDocWithXattrs
+//@   trusted
+//@   modifies *
+//@   ensures[found] isNilErr(err) ==> doc != nil && rawBucketDoc != nil && doc.Cas == rawBucketDoc.Cas
+//@ func DatabaseCollection.GetDocWithXattrs
+//@   modifies *
+//@   ensures[found] isNilErr(err) ==> doc != nil && rawBucketDoc != nil && doc.Cas == rawBucketDoc.Cas
+
+// GetDocumentWithRaw imports on demand only a document that the own-write check -- run on the very document
+// and raw body handed to the import, after the reload -- classified as not the gateway's write; a gateway write
+// is returned without import. An import error is surfaced (nothing is returned).
+//@ func DatabaseCollection.GetDocumentWithRaw
+//@   modifies *
+//@   ensures[own-write-not-imported]  called(IsSGWrite, 1) && callres(IsSGWrite, 1, 0) ==> !called(OnDemandImportForGet, 1)
+//@   ensures[import-only-after-check] called(OnDemandImportForGet, 1) ==> called(IsSGWrite, 2) && !callres(IsSGWrite, 2, 0)
+//@   ensures[external-imported]       isNilErr(err) && called(IsSGWrite, 2) && !callres(IsSGWrite, 2, 0) ==> called(OnDemandImportForGet, 1) && isNilErr(callres(OnDemandImportForGet, 1, 1))
+//@   ensures[import-error-surfaces]   called(OnDemandImportForGet, 1) && !isNilErr(callres(OnDemandImportForGet, 1, 1)) ==> !isNilErr(err) && doc == nil
+//@   before[checked-doc] call OnDemandImportForGet#1 $3 == callres(getDocWithXattrs, 1, 0) && $4 == callres(getDocWithXattrs, 1, 1).Body && $6 == callres(getDocWithXattrs, 1, 1).Cas
+//@   before[recheck]     call IsSGWrite#2 $0 == callres(getDocWithXattrs, 1, 0) && $2 == callres(getDocWithXattrs, 1, 1).Body
+
+// ---- the feed path: a gateway write arriving on the import feed is never imported (path contract) ----
+
+// UnmarshalDocumentSyncDataFromFeed is TRUSTED (thin frame contract): it decodes the DCP value into a freshly
+// allocated BucketDocument / SyncData (sgbucket.DecodeValueWithXattrs, base.JSONUnmarshal into fresh targets) and
+// writes nothing that existed before the call. On success the bucket document is not nil (every nil-error
+// return passes rawDoc = &sgbucket.BucketDocument{}).
+//@ func UnmarshalDocumentSyncDataFromFeed
+//@   trusted
+//@   ensures[found] isNilErr(result2) ==> result0 != nil
+
+// ImportFeedEvent hands a mutation to the importer only if it carries no sync metadata at all or the own-write
+// check on THIS event (its cas, its body, its user xattr, its _vv) said "not the gateway's write"; the import is
+// requested in feed mode with the event's cas, so that a superseded mutation is refused by the callback
+// ([stale-feed-event] of importDoc$1) instead of being imported a second time.
+//@ func importListener.ImportFeedEvent
+//@   modifies *
+//@   ensures[own-write-never-imported] called(IsSGWrite, 1) && callres(IsSGWrite, 1, 0) ==> !called(ImportDocRaw, 1)
+//@   before[this-event] call IsSGWrite#1 $2 == event.Cas && $0 == callres(UnmarshalDocumentSyncDataFromFeed, 1, 1) && $3 == callres(UnmarshalDocumentSyncDataFromFeed, 1, 0).Body
+//@   before[feed-mode]  call ImportDocRaw#1 $5.mode == ImportFromFeed && $6 == event.Cas && $5.revSeqNo == event.RevNo
+
+// (No contracts on ImportDocRaw / importDoc themselves: both call a function whose contract is a path contract
+// -- Body.Unmarshal (C19) resp. updateAndReturnDoc (C07), whose ensures use called()/callres() -- and such a
+// contract cannot be applied at a call site: "outside supported subset: ... called: no call ... on record".)
+
+// (No contract on changeCache.DocChanged, the caller of IsSGWriteXattrOnly: its later part calls
+// changeCache.WasSkipped (C08: requires c08WF(c)) inside loops around processEntry, so a contract here would
+// have to carry the C08 cache invariant through those loops. What DocChanged does with the two verdicts --
+// accept on isSGWrite, fetch the body and compare its checksum on ambiguous, drop otherwise -- is the
+// composition stated by lemma xattrOnly_agrees_with_IsSGWrite.)
